@@ -4,6 +4,7 @@ import PysamlModel.Spec.Sp
 import PysamlModel.Gen.StatusCodes
 import PysamlModel.Model.SpAttr
 import PysamlModel.Model.SpFactory
+import PysamlModel.Model.SpLex
 open Lean Proto Sp
 
 def parseSig (s : String) : Sig :=
@@ -86,6 +87,7 @@ def errName : Err → String
   | .unknownMethod => "unknownMethod" | .noScData => "noScData" | .noRecipient => "noRecipient" | .noValidSc => "noValidSc"
   | .bearerUnknownIrt => "bearerUnknownIrt" | .cameFrom => "cameFrom" | .eitherUnsigned => "eitherUnsigned"
   | .unknownBinding => "unknownBinding"
+  | .timeForm => "timeForm"
 
 /-- expected exception class for a second-level status code, from the regenerated table -/
 def statusClass (second : Option String) : String :=
@@ -141,7 +143,11 @@ def handle (line : Json) : Json :=
   let r := if isAttr then attrView r0 else r0
   -- the factory entry point (`saml2.response.authn_response` + loads + verify): Model/SpFactory.lean
   let isFactory := strD envJ "kind" == "factory"
-  let m := if isAttr then processAttr cfg0 env0 r0 else if isFactory then processFactory cfg env r else process cfg env r
+  -- lexical form the timestamps were rendered in (Model/SpLex.lean); the instants of `r` are the true instants
+  let tform : TimeForm := match strD envJ "time_form" with
+    | "fraction" => .fraction | "noZone" => .noZone | "offset" => .offset | _ => .utc
+  let m := if isAttr then processAttrLex tform cfg0 env0 r0 else if isFactory then processFactoryLex tform cfg env r
+    else processLex tform cfg env r
   let io := parseOutcome impl
   -- the configuration the PROPERTY talks about: options resolved with the property's defaults
   let cfgP : Cfg := { cfg with wantResp := opts.wantResp.getD true, wantAssert := opts.wantAssert.getD false,
@@ -183,9 +189,9 @@ def handle (line : Json) : Json :=
     | .rejected (.status _) => if statusOnly then outcomeToJson m else outcomeToJson (.rejected .unknownBinding)
     | _ => outcomeToJson m
   let spec (out : Outcome) (isImpl : Bool) : List (String × Bool) :=
-    [("C01s", specC01Sound opts r out), ("C01c", specC01Complete opts cfgP env r out),
+    [("C01s", specC01Sound opts r out), ("C01c", !tform.read || specC01Complete opts cfgP env r out),
      ("C04", specC04 cfgP env r out),
-     ("C05s", specC05Sound cfgP env r out), ("C05c", specC05Complete cfgP env r out),
+     ("C05s", specC05Sound cfgP env r out), ("C05c", !tform.read || specC05Complete cfgP env r out),
      ("C06", specC06 cfgP env r out && (!isImpl || statusOk))]
   let sel := strD c "prop" "ALL"
   let pick (l : List (String × Bool)) : List (String × Bool) :=
